@@ -169,3 +169,47 @@ func VerifC17Race() {
 	}
 	zzverif.Cover("done")
 }
+
+// VerifC17TwoCompactions: an old Event, a compaction (mark), more than the TTL passes, a young
+// Event is created, then two compaction requests run at the same time (the periodic loop and a
+// client request: nothing serialises them), every interleaving within the delay bound: the young
+// Event — created less than the TTL ago — is never removed.
+func VerifC17TwoCompactions() {
+	saved := vNames
+	vNames = [][]byte{[]byte("/r/events/old"), []byte("/r/events/young")}
+	defer func() { vNames = saved }()
+	eventsTTL = 1 // seconds; natively the harness really waits (FireTickers sleeps longer than this)
+	w := vNewWorld(2)
+	w.s.TTLSupported = false
+	w.create("old", vNames[0])
+	zzverif.WaitIdle()
+	ok1, _ := w.compact(0)
+	zzverif.Assert(ok1, "first compaction (leaves the mark)")
+	zzverif.AdvanceClock()
+	zzverif.FireTickers()
+	young := w.create("young", vNames[1])
+	zzverif.WaitIdle()
+	done := make(chan struct{}, 2)
+	// the log line between reading the oldest mark and removing it is a gate for native replays
+	zzverif.GateLogs("check compact history")
+	zzverif.ExploreSchedules(zzverif.Param("preempt", 2))
+	for i := 0; i < 2; i++ {
+		zzverif.Go("compactor"+string(rune('0'+i)), func() {
+			w.b.Compact(vCtx(), 0)
+			done <- struct{}{}
+		})
+	}
+	<-done
+	<-done
+	zzverif.StopExploring()
+	zzverif.WaitIdle()
+	g, err := w.b.Get(vCtx(), &proto.GetRequest{Key: vNames[1]})
+	zzverif.Assert(err == nil, "get: no error")
+	zzverif.Assert(g.Kv != nil && g.Kv.Revision == young, "an Event younger than the TTL is not removed by concurrent compactions")
+	_, hasIdx := w.s.RawGet(w.b.coder.EncodeRevisionKey(vNames[1]))
+	zzverif.Assert(hasIdx, "the young Event keeps its index record")
+	if o, _ := w.b.Get(vCtx(), &proto.GetRequest{Key: vNames[0]}); o.Kv == nil {
+		zzverif.Cover("old-event-expired")
+	}
+	zzverif.Cover("done")
+}
